@@ -2,11 +2,13 @@ import Driver.Util
 import Driver.Suites.Blocks
 import Driver.Suites.Rm
 import Driver.Suites.Wscap
+import Driver.Suites.Bucket
 /-! Table of suites known to the driver.  One line per suite (merge=union friendly). -/
 namespace Driver
 def registry : List Suite := [
   Suites.Blocks.suite,
   Suites.Rm.suite,
   Suites.Wscap.suite,
+  Suites.Bucket.suite,
 ]
 end Driver
